@@ -14,7 +14,153 @@ pub fn dispatch(host: &mut Host, name: &str, op: &Value) -> Result<Option<Value>
     if let Some(rest) = name.strip_prefix("l.") {
         return lcd(host, rest, op);
     }
+    if let Some(rest) = name.strip_prefix("mem.") {
+        return mem(host, rest, op);
+    }
+    if let Some(rest) = name.strip_prefix("r.") {
+        return regs(host, rest, op);
+    }
     Err(format!("unknown component op {name}"))
+}
+
+fn mem_cfg(m: &mut MemoryImage, step: &Value) -> Result<(), String> {
+    let kind = step.get(1).and_then(|x| x.as_str()).unwrap_or("");
+    match kind {
+        "mirror" => m.set_internal_ram_mirror(b(step, 2)?),
+        "readonly" => {
+            let mut v = Vec::new();
+            if let Some(arr) = step.get(2).and_then(|x| x.as_array()) {
+                for r in arr {
+                    v.push((u(r, 0)? as u32, u(r, 1)? as u32));
+                }
+            }
+            m.set_readonly_ranges(v);
+        }
+        "pce500_map" => sc62015_core::pce500::configure_pce500_memory_map(m),
+        "ram" => m.add_ram_overlay(u(step, 2)? as u32, u(step, 3)? as usize, crate::s(step, 4)?),
+        "rom" => {
+            let data = crate::bytes(step, 3)?;
+            m.add_rom_overlay(u(step, 2)? as u32, &data, crate::s(step, 4)?);
+        }
+        "rm" => m.remove_overlay(crate::s(step, 2)?),
+        "card" => {
+            let size = u(step, 2)? as usize;
+            let fill = u(step, 3)? as u8;
+            let data = vec![fill; size];
+            m.set_memory_card_slot_present(true);
+            m.load_memory_card(&data).map_err(|e| format!("{e}"))?;
+        }
+        "nocard" => m.set_memory_card_slot_present(false),
+        "romimage" => {
+            // deterministic ROM content shared with the Python side: byte(a) = ((a*2654435761 + seed*40503) >> 7) & 0xFF
+            let seed = u(step, 2)?;
+            let data: Vec<u8> = (0xC0000u64..0x100000u64)
+                .map(|a| (((a * 2654435761u64 + seed * 40503u64) >> 7) & 0xFF) as u8)
+                .collect();
+            m.write_external_slice(0xC0000, &data);
+        }
+        "image" => {
+            let data = crate::bytes(step, 3)?;
+            m.write_external_slice(u(step, 2)? as usize, &data);
+        }
+        other => return Err(format!("bad mem cfg {other}")),
+    }
+    Ok(())
+}
+
+/// MemoryImage component level (C11): ["mem.new", slot], ["mem.script", slot, [steps]]
+///   ["cfg", kind, ...] | ["ld", addr, bits] | ["st", addr, bits, value]
+fn mem(host: &mut Host, name: &str, op: &Value) -> Result<Option<Value>, String> {
+    let slot = u(op, 1)?;
+    match name {
+        "new" => {
+            host.mems.insert(slot, MemoryImage::new());
+            Ok(None)
+        }
+        "script" => {
+            let m = host.mems.get_mut(&slot).ok_or_else(|| format!("no mem {slot}"))?;
+            let script = op.get(2).and_then(|x| x.as_array()).ok_or_else(|| "steps".to_string())?;
+            let mut out: Vec<Value> = Vec::with_capacity(script.len());
+            for step in script {
+                let kind = step.get(0).and_then(|x| x.as_str()).unwrap_or("");
+                match kind {
+                    "cfg" => {
+                        mem_cfg(m, step)?;
+                        out.push(Value::Null);
+                    }
+                    "ld" => {
+                        let v = m.load(u(step, 1)? as u32, u(step, 2)? as u8);
+                        out.push(match v {
+                            Some(x) => json!(x),
+                            None => Value::Null,
+                        });
+                    }
+                    "st" => {
+                        let r = m.store(u(step, 1)? as u32, u(step, 2)? as u8, u(step, 3)? as u32);
+                        out.push(json!(r.is_some()));
+                    }
+                    other => return Err(format!("bad mem step {other}")),
+                }
+            }
+            Ok(Some(Value::Array(out)))
+        }
+        _ => Err(format!("unknown mem op mem.{name}")),
+    }
+}
+
+/// LlamaState register file (C08): ["r.script", [steps]]
+///   ["set", name, value] | ["get", name] | ["roundtrip"] (collect -> pack -> unpack -> apply to a fresh state)
+///   | ["apply"] (collect -> apply to fresh, keeping TEMPs)
+fn regs(_host: &mut Host, name: &str, op: &Value) -> Result<Option<Value>, String> {
+    use sc62015_core::llama::state::LlamaState;
+    use sc62015_core::{apply_registers, collect_registers, pack_registers, unpack_registers};
+    match name {
+        "script" => {
+            let mut st = LlamaState::new();
+            let script = op.get(1).and_then(|x| x.as_array()).ok_or_else(|| "steps".to_string())?;
+            let mut out: Vec<Value> = Vec::with_capacity(script.len());
+            for step in script {
+                let kind = step.get(0).and_then(|x| x.as_str()).unwrap_or("");
+                match kind {
+                    "set" => {
+                        let nm = crate::s(step, 1)?;
+                        let reg = crate::reg_by_name(nm).ok_or_else(|| format!("bad reg {nm}"))?;
+                        st.set_reg(reg, u(step, 2)? as u32);
+                        out.push(Value::Null);
+                    }
+                    "get" => {
+                        let nm = crate::s(step, 1)?;
+                        let reg = crate::reg_by_name(nm).ok_or_else(|| format!("bad reg {nm}"))?;
+                        out.push(json!(st.get_reg(reg)));
+                    }
+                    "roundtrip" => {
+                        let regs = collect_registers(&st);
+                        let blob = pack_registers(&regs);
+                        let mut back = unpack_registers(&blob).map_err(|e| format!("{e}"))?;
+                        for (k, v) in regs.iter() {
+                            if k.starts_with("TEMP") {
+                                back.insert(k.clone(), *v);
+                            }
+                        }
+                        let mut fresh = LlamaState::new();
+                        apply_registers(&mut fresh, &back);
+                        st = fresh;
+                        out.push(json!(blob));
+                    }
+                    "apply" => {
+                        let regs = collect_registers(&st);
+                        let mut fresh = LlamaState::new();
+                        apply_registers(&mut fresh, &regs);
+                        st = fresh;
+                        out.push(Value::Null);
+                    }
+                    other => return Err(format!("bad reg step {other}")),
+                }
+            }
+            Ok(Some(Value::Array(out)))
+        }
+        _ => Err(format!("unknown reg op r.{name}")),
+    }
 }
 
 fn lcd_regs(lcd: &LcdController) -> Value {
